@@ -114,7 +114,7 @@ def _guard_modes(F, node, var='modebb'):
                 best = b
     if best is None:
         return None, None
-    c = best.stmt[1]
+    c = F.resolve_flags(best.stmt[1])
     lits = sorted({int(z[1]) for x in ir.subexprs(c) if x[0] == 'op' and x[1] == '==' and cppflow.mentions(x, var)
                    for z in x[2:] if z[0] == 'num'})
     return lits, best
